@@ -218,6 +218,39 @@ c56874f, 6cfe0ff; what makes this true of the CODE is the harness's snapshot com
 theorem args_preserved {V : Type} (estimator method container : String) (arg : ArgSnap V) (result : V) :
     callerAfter (effectOf estimator method container) arg result = arg := rfl
 
+/-- … for ALL the arguments of a call at once (`fit(y, X, fh)`, `predict(fh, X)`, `fit(X, y)`): whatever the
+estimator, the method, the number of arguments, their containers and contents, and whatever the call returns,
+every one of the caller's objects is afterwards what it was before -/
+theorem all_args_preserved {V : Type} (estimator method : String) (args : List (String × ArgSnap V)) (result : V) :
+    callerAfterAll estimator method args result = args := by
+  unfold callerAfterAll
+  induction args with
+  | nil => rfl
+  | cons a as ih => rw [List.map_cons, ih]; rfl
+
+example : callerAfterAll "RecursiveTabularRegressionForecaster" "predict"
+    [("fh", (⟨[1, 2], [], true⟩ : ArgSnap (List Int))), ("DataFrame", ⟨[7, 8], [5, 6], true⟩)] [3, 4] =
+    [("fh", ⟨[1, 2], [], true⟩), ("DataFrame", ⟨[7, 8], [5, 6], true⟩)] := by decide
+
+/-- the comparison over all arguments is not blind to the later ones: a site that works on the caller's object
+through ANY ONE of the arguments (here: the table `tbl` marks container `c` as worked on in place, e.g. an
+exogenous frame filled through a numpy view) leaves a list that differs from the one passed in, whenever the
+value written differs from the value that was there -/
+theorem in_place_site_on_any_argument_is_visible {V : Type} (tbl : String → Effect) (c : String)
+    (pre post : List (String × ArgSnap V)) (arg : ArgSnap V) (result : V)
+    (hc : tbl c = .returnsArgMutated ∨ tbl c = .writesResultIntoArg) (hne : result ≠ arg.values) :
+    callerAfterAllWith tbl (pre ++ (c, arg) :: post) result ≠ pre ++ (c, arg) :: post := by
+  intro h
+  unfold callerAfterAllWith at h
+  rw [List.map_append, List.map_cons] at h
+  have hl : (pre.map (fun a => (a.1, callerAfter (tbl a.1) a.2 result))).length = pre.length := List.length_map _
+  have h2 := (List.append_inj h hl).2
+  rw [List.cons.injEq] at h2
+  have h3 := h2.1
+  simp only [Prod.mk.injEq, true_and] at h3
+  rcases hc with hc | hc <;> rw [hc] at h3 <;> simp only [callerAfter] at h3 <;>
+    exact hne (by have := congrArg ArgSnap.values h3; simpa using this)
+
 /-- `HampelFilter.transform` on a Series: whatever the filter finds, the caller's series afterwards is
 the series passed in -/
 theorem hampel_caller_unchanged (cfg : ST.HampelCfg) (z r after : ST.Series)
